@@ -243,7 +243,13 @@ pub fn gen_node(r: &mut Rng, tier: &str, rooms: u8, nondyadic: bool, name: &'sta
             if i % 130 == 77 {
                 inst = gen::gen_big_min_course(r);
             }
-            Case { stream: name, data: json!({"inst": inst.to_json(), "max_nodes": if big { 120 } else { 60 }}) }
+            let mut max_nodes = if big { 120 } else { 60 };
+            if rooms == 2 && i % 65 == 33 {
+                // the size limits of the room branching (few nodes: each has hundreds of children)
+                inst = gen::gen_room_branching_limits(r);
+                max_nodes = 4;
+            }
+            Case { stream: name, data: json!({"inst": inst.to_json(), "max_nodes": max_nodes}) }
         })
         .collect()
 }
